@@ -1319,7 +1319,46 @@ pub fn perturb(rng: &mut Rng, source: &str) -> String {
                 && !t.starts_with('#')
                 && t.split_whitespace().nth(1).is_some_and(|w| w == "=" || w == ":")
         };
-        text = match rng.below(9) {
+        text = match rng.below(12) {
+            9 => {
+                // unused definitions in front, the first of which cannot be evaluated
+                let junk = match rng.below(3) {
+                    0 => "unused1 = 10 / 0\nunused2 = 100\n",
+                    1 => "unused1 = 1 / (2 - 2)\nunused2 = (x : int) => x\nunused3 = 7\n",
+                    _ => "unused1 = 5\nunused2 = 3 / 0\n",
+                };
+                format!("{junk}{text}")
+            }
+            10 => {
+                // the result becomes a let-bound name at the end of a chain of aliases
+                let k = rng.range(1, 6);
+                let mut lines = lines;
+                if let Some(last) = lines.pop() {
+                    let body = last.trim_end().to_owned();
+                    if body.is_empty() || body.contains(" = ") {
+                        lines.push(last);
+                        lines.concat()
+                    } else {
+                        let mut tail = format!("res0 = {body}\n");
+                        for i in 1..=k {
+                            tail.push_str(&format!("res{i} = res{}\n", i - 1));
+                        }
+                        tail.push_str(&format!("res{k}\n"));
+                        format!("{}{tail}", lines.concat())
+                    }
+                } else {
+                    text
+                }
+            }
+            11 => {
+                // annotations go through a chain of type aliases
+                let k = rng.range(2, 6);
+                let mut head = String::from("alias0 = int\n");
+                for i in 1..=k {
+                    head.push_str(&format!("alias{i} = alias{}\n", i - 1));
+                }
+                format!("{head}{}", text.replace(" : int", &format!(" : alias{k}")))
+            }
             0 => {
                 // many more names in scope (thresholds: 10, 16, 32, 64, 128)
                 let n = *rng.pick(&[12usize, 20, 36, 70, 140]);
